@@ -8,7 +8,9 @@ journal block at every position and the rest of the history executed outside.
 
 from __future__ import annotations
 
+import contextlib
 import gc
+import io
 
 import onnx_ir as ir
 from onnx_ir import _core, _graph_containers
@@ -271,6 +273,49 @@ def check_history(seed, ops):
     alive = [e.class_name for e in j.entries if e.obj is not None and not isinstance(e.obj, type)]
     if alive:
         v.append(("entries_keep_ir_objects_alive", sorted(set(alive))[:4]))
+    # (b') the same run while the journal is being *looked at*: a hook inspects every entry as it is recorded
+    # (obj, display, repr) and the whole journal is displayed after every operation and once more after exit
+    w = World(seed)
+    outs = []
+    sink = io.StringIO()
+
+    def look(entry):
+        with contextlib.redirect_stdout(sink):
+            _ = entry.obj
+            try:
+                # "init" entries of base classes are recorded while the subclass constructor is still running, so
+                # the repr of the object may not be available yet: that is the hook's problem, not an interference
+                entry.display()
+                repr(entry)
+            except Exception:  # noqa: BLE001
+                pass
+
+    with Journal() as j:
+        j.add_hook(look)
+        for o in ops:
+            outs.append(w.apply(o))
+            with contextlib.redirect_stdout(sink):
+                j.display()
+    compare("inspected", outs, w.canon())
+    if len(j.entries) != n_after:
+        v.append(("inspection_changes_the_number_of_entries", (len(j.entries), n_after)))
+    with contextlib.redirect_stdout(sink):
+        j.display()
+        for e in j.entries:
+            e.display()
+            bool(e.obj)  # looked at, not kept
+    d = table_diff()
+    if d:
+        v.append(("classes_not_restored_after_exit", d[:3]))
+        _force_restore()
+    del w, outs
+    gc.collect()
+    alive = [e.class_name for e in j.entries if e.ref is not None and e.ref() is not None and not isinstance(e.ref(), type)]
+    if alive:
+        v.append(("inspected_entries_keep_ir_objects_alive", sorted(set(alive))[:4]))
+    alive = [e.class_name for e in j.entries if e.obj is not None and not isinstance(e.obj, type)]
+    if alive:
+        v.append(("inspected_entries_still_return_dead_objects", sorted(set(alive))[:4]))
     # (c) nested journal entered before op k, for every k; (d) exception thrown out of the block at position k
     for k in range(len(ops) + 1):
         w = World(seed)
